@@ -293,14 +293,24 @@ def pairing_replace(ctx, ef):
         # the removed child is the one read from that index before the store
         cand = [d.ast.targets[0].id for d in g.stmt_nodes() if d.kind == 'stmt' and isinstance(d.ast, ast.Assign) and isinstance(d.ast.targets[0], ast.Name)
                 and unparse(d.ast.value) == f"self._unordered_children[{idx_var}]" and g.dominates(d, setitems[0])]
-        if not res.check(len(cand) == 1, 'R-PAIR.replace', f.fq, "the child at that index is read (the removed child) before the item assignment", key='R-PAIR.replace|list-ops'):
+        if not cand:
+            # or the index is looked up from the removed child: `i = self._unordered_children.index(old_child)`
+            for d in dom.assignments_to(g, idx_var):
+                v = d.ast.value if isinstance(d.ast, ast.Assign) else None
+                if isinstance(v, ast.Call) and unparse(v.func) == 'self._unordered_children.index' and len(v.args) == 1 and isinstance(v.args[0], ast.Name) \
+                        and g.dominates(d, setitems[0]):
+                    cand.append(v.args[0].id)
+        if not res.check(len(cand) == 1, 'R-PAIR.replace', f.fq, "the child at that index is read (the removed child) before the item assignment, or the index is that of the "
+                         "removed child", key='R-PAIR.replace|list-ops'):
             return
         old_var = cand[0]
         rem = ins = setitems
     # old_var = self._unordered_children[idx_var]; idx_var = self._unordered_children.index(<selected old>)
     defs_old = [unparse(d.ast.value) for d in dom.assignments_to(g, old_var) if isinstance(d.ast, ast.Assign)]
     defs_idx = [unparse(d.ast.value) for d in dom.assignments_to(g, idx_var) if isinstance(d.ast, ast.Assign)]
-    res.check(defs_old == [f"self._unordered_children[{idx_var}]"] and len(defs_idx) == 1 and defs_idx[0].startswith('self._unordered_children.index('), 'R-PAIR.replace', f.fq,
+    by_read = defs_old == [f"self._unordered_children[{idx_var}]"] and len(defs_idx) == 1 and defs_idx[0].startswith('self._unordered_children.index(')
+    by_lookup = defs_idx == [f"self._unordered_children.index({old_var})"] and len(defs_old) == 1
+    res.check(by_read or by_lookup, 'R-PAIR.replace', f.fq,
               "the new child is inserted at the index the removed child had", fail_detail=f"{old_var} = {defs_old}; {idx_var} = {defs_idx}", key='R-PAIR.replace|same-position')
     for mode, ok in (('checked', on), ('unchecked', off)):
         res.check(_must(g, rem, ok) and _must(g, ins, ok), 'R-PAIR.replace', f.fq, f"{mode}: the insertion list is updated on every normal path", key=f"R-PAIR.replace|list|{mode}")
